@@ -497,3 +497,29 @@ pub fn coding_row_to_scenario(row: &Value, index: usize) -> Option<Value> {
         "segs": if index % 4 == 0 { json!([]) } else { json!([3 + index % 90, 1, 2]) }, "pre": if index % 4 == 0 { 100000 } else { 0 },
     }))
 }
+
+/// A behaviour of BodyReaderImpl.tla printed by TLC (MC_BodyReplay): the script plus the environment /
+/// caller schedule (release k octets of the body, close, read n) -> exchange scenario.
+pub fn body_replay_to_scenario(row: &Value) -> Value {
+    let framing = gs(row, "framing");
+    let chunks: Vec<usize> = ga(row, "chunks").iter().map(|x| x.as_u64().unwrap() as usize).collect();
+    let mut sc = json!({"id": gs(row, "id"), "plen": gu(row, "plen"), "seed": 5,
+        "body": if framing == "chunked" { json!({"kind":"chunked","chunks":chunks,"ext":[false]}) } else { json!({"kind":framing}) },
+        "noclose": true});
+    let cut = gu(row, "cut");
+    if cut != 999 {
+        sc["fault"] = json!({"kind":"cut","at_body":cut});
+        if framing == "close" {
+            sc["plen"] = json!(cut);
+            sc.as_object_mut().unwrap().remove("fault");
+        }
+    }
+    let he = gu(&render(&sc).script, "headEnd");
+    sc["pre"] = json!(he);
+    let mut steps = vec![json!(["send"])];
+    for st in ga(row, "steps") {
+        steps.push(st.clone());
+    }
+    sc["steps"] = json!(steps);
+    sc
+}
